@@ -72,6 +72,7 @@ def single_gate_cases():
     for g in NATIVE0:
         for w in itertools.permutations(range(1, 4), ARITY[g]):
             out.append([rec(g, list(w))])
+    out.append([rec("Identity", [1, 3])])          # Identity takes any number of wires
     for g in NATIVE_ADJ:
         for w in range(1, 4):
             out.append([rec(g, [w], mods=[{"t": "adj"}])])
